@@ -559,10 +559,29 @@ class FieldCompiler(MessageCompiler):
             # fields are rendered, so request the import here as well
             self.output_file.builtins_import = True
         if self.repeated:
-            return self.typing_compiler.list(py_type)
+            return self._qualify_builtins(self.typing_compiler.list(py_type))
         if self.optional:
-            return self.typing_compiler.optional(py_type)
-        return py_type
+            return self._qualify_builtins(self.typing_compiler.optional(py_type))
+        return self._qualify_builtins(py_type)
+
+    def _qualify_builtins(self, annotation: str) -> str:
+        """
+        A field named like a builtin scalar type (``str``, ``int``, ...) shadows that
+        name inside the class body, for the field's own annotation and for every
+        lazily evaluated one. Spell such types ``builtins.<type>`` wherever they occur
+        in an annotation (wrapped, optional, list and map types included).
+        """
+        shadowed = {
+            field.py_name for field in self.parent.fields if hasattr(field, "py_name")
+        } & {"bool", "bytes", "float", "int", "str"}
+        for name in shadowed:
+            qualified = re.sub(
+                rf"(?<![\w.]){name}(?!\w)", f"builtins.{name}", annotation
+            )
+            if qualified != annotation:
+                annotation = qualified
+                self.output_file.builtins_import = True
+        return annotation
 
 
 @dataclass
@@ -633,7 +652,9 @@ class MapEntryCompiler(FieldCompiler):
 
     @property
     def annotation(self) -> str:
-        return self.typing_compiler.dict(self.py_k_type, self.py_v_type)
+        return self._qualify_builtins(
+            self.typing_compiler.dict(self.py_k_type, self.py_v_type)
+        )
 
     @property
     def repeated(self) -> bool:
